@@ -213,12 +213,14 @@ Init == /\ contexts = <<[kind |-> "R", pos |-> <<>>]>>
         /\ h = <<>>
         /\ last = [op |-> [op |-> "init"], res |-> Ref!Ok]
 
-Next == \E op \in Ref!Ops :
-          CASE op.op = "gon"    -> GetOrNew(op)
-            [] op.op = "unset"  -> Unset(op)
-            [] op.op = "push"   -> Push(op)
-            [] op.op = "pop"    -> Pop(op)
-            [] op.op = "setpos" -> SetPos(op)
+OpsOf(kind) == {op \in Ref!Ops : op.op = kind}
+GetOrNewStep == \E op \in OpsOf("gon") : GetOrNew(op)
+UnsetStep    == \E op \in OpsOf("unset") : Unset(op)
+PushStep     == \E op \in OpsOf("push") : Push(op)
+PopStep      == \E op \in OpsOf("pop") : Pop(op)
+SetPosStep   == \E op \in OpsOf("setpos") : SetPos(op)
+
+Next == GetOrNewStep \/ UnsetStep \/ PushStep \/ PopStep \/ SetPosStep
 
 Spec == Init /\ [][Next]_vars
 
